@@ -355,7 +355,44 @@ def gen_deep_cases(ctx, cases):
                     c = add(grid, tm, "TV", P, eos, "stub", "F8 electronic rows != temperatures")
                     nq = len(grid) + dq
                     c.qtab = q_pars(nq, rng)
+    # F9 energy zero and fine temperature grids: the same curves with a constant C added to all energies
+    # (total energies of all-electron / pseudopotential codes), and 1 K steps where consecutive F(V) rows differ
+    # by less than 1e-6 relative
+    f9 = 0
+    for rep in range(n_each):
+        for ei, eos in enumerate(EOS_NAMES):
+            for mode in ("stub", "real"):
+                shape = ["V", "TV"][(ei + rep + (mode == "real")) % 2]
+                P = [None, Fr(2), Fr(-3, 2)][(ei + rep) % 3]
+                pars = dict(vpoly=[Fr(40) + Fr(rep, 4), Fr(1, 100), Fr(1, 10000)],
+                            epoly=[Fr(-10) - Fr(ei, 2), Fr(-1, 1000), Fr(-1, 100000), Fr(0)],
+                            bpoly=[Fr(1, 2) + Fr(ei, 8), Fr(-1, 2000)], bppoly=[Fr(4) + Fr(ei, 2), Fr(0)])
+                for C in (Fr(0), Fr(-2500), Fr(10000)):
+                    c = poly_case(len(cases) + 1, [10 * k for k in range(8)], None if f9 % 2 else 55, shape, P, eos,
+                                  rng, mode, "F9 constant energy offset C = %s eV, 10 K grid" % C, **pars)
+                    c.apply_shift(C)
+                    cases.append(c)
+                    f9 += 1
+                fine = dict(vpoly=[Fr(40) + Fr(rep, 4), Fr(1, 100), Fr(0)],
+                            epoly=[Fr(-10) - Fr(ei, 2), Fr(-1, 100000), Fr(-1, 1000000), Fr(0)],
+                            bpoly=[Fr(1, 2) + Fr(ei, 8), Fr(0)], bppoly=[Fr(4) + Fr(ei, 2), Fr(0)])
+                for T in ([0, 1, 2, 3, 4, 5, 6, 7], [1000, 1001, 1002, 1003, 1004, 1005, 1006, 1007],
+                          [0, 1, 2, 3, 10, 20, 30, 31, 32]):
+                    c = poly_case(len(cases) + 1, T, None, shape, P, eos, rng, mode,
+                                  "F9 fine temperature grid (1 K steps)", **fine)
+                    cases.append(c)
     ctx.extra["deep_cases"] = len([c for c in cases if c.family != "main"])
+
+
+def poly_case(cid, T, tmax, shape, P, eos, rng, mode, family, vpoly, epoly, bpoly, bppoly):
+    nT = len(T)
+    qp = [dict(E0=Fr(-9) + Fr(j, 8), B0=Fr(3, 5), Bp=Fr(9, 2), V0=Fr(39) + Fr(j, 10)) for j in range(nT)]
+    cv = [[Fr(25) + Fr(k, 2), Fr(1, 10), Fr(1, 100)] for k in range(nT)]
+    st = [[Fr(10) + 2 * k, Fr(1, 2), Fr(-1, 100)] for k in range(nT)]
+    c = L.Case(cid, T, tmax, shape, P, eos, list(vpoly), list(epoly), list(bpoly), list(bppoly), qp, cv, st, 40, [0.0],
+               mode=mode, family=family)
+    c.volumes = vol_grid([c.ptab, c.qtab], rng)
+    return c
 
 
 def tmax_candidates(T):
@@ -423,6 +460,20 @@ TOL = dict(
     stub=dict(bm=1e-9, vol=1e-9, gibbs=1e-9, bulk=1e-9, beta=1e-8, cp=1e-7, cpfit=1e-6, gru=1e-6, dsdv=1e-6),
     real=dict(bm=1e-6, vol=1e-6, gibbs=1e-6, bulk=1e-6, beta=1e-5, cp=1e-4, cpfit=1e-5, gru=1e-5, dsdv=1e-5),
 )
+
+
+def case_tol(c):
+    """Projection tolerances derived from the scale of the input: the absolute round-off of the energies grows
+    with |E| (offset C), and with it that of everything fitted to or differenced from them; the three-point
+    parabola of C_P in T loses digits as T_max / dT_min grows."""
+    t = dict(TOL[c.mode])
+    s = max(1.0, c.escale / 10.0)
+    dts = [abs(b - a) for a, b in zip(c.T, c.T[1:]) if b != a]
+    g = max(1.0, (max(abs(x) for x in c.T) / min(dts)) / 10.0) if dts else 1.0
+    for k in ("bm", "vol", "bulk", "beta", "gru", "cpfit", "dsdv"):
+        t[k] = t[k] * s
+    t["cp"] = t["cp"] * s * g
+    return t
 
 
 def parse_out(stdout):
@@ -516,6 +567,9 @@ def corrupt(e, what):
         o["files"][2]["fmtok"] = False
     elif what == "start":
         o["starts"] = ["own", "prev"]
+    elif what == "shift":  # the energies without their offset are not the generating ones
+        b = c["inp"]["e0base"][1]
+        c["inp"]["e0base"][1] = [b[0] + 1, b[1]]
     elif what == "failedfit":  # the environment let the second fit fail, the result pretends nothing happened
         c["inp"]["fitplan"][1] = "nonconv"
     return c
@@ -525,7 +579,7 @@ CONTROLS = dict(vol="ImplRecoverVolume", gibbs="ImplRecoverGibbs", bulk="ImplRec
                 el="ImplPerTemperatureElectronic", pvsign="ImplPressureSign", phunit="ImplPhononUnit",
                 len="ImplLength", beta="ImplThermalExpansion", cp="ImplHeatCapacity", exact="ImplExact",
                 bmpar="ImplBulkModulusObject", file="ImplFiles", filefmt="ImplFiles", start="ImplFitStart",
-                failedfit="ImplFailedFitReported")
+                failedfit="ImplFailedFitReported", shift="ImplShiftInvariance")
 
 
 def negative_controls(ctx, events):
@@ -575,6 +629,7 @@ def qha_part(ctx, forms, EV, NA):
     skipped = []
     first_ok_events = None
     clause_fail = {}   # clause -> list of case ids
+    f9_margin = {}     # worst residual / scaled tolerance in the energy-offset / fine-grid family
     observed = {}      # observation outside the statement of C20 -> list of case ids
     for b0 in range(0, len(cases), batch):
         chunk = cases[b0:b0 + batch]
@@ -613,12 +668,16 @@ def qha_part(ctx, forms, EV, NA):
         events = []
         for c in chunk:
             e = seqs(exp[c.id])
-            obs, exact, resid, mism = L.project_case(c, raws[c.id], e, TOL[c.mode], filespecs, EV, NA)
+            tol_c = case_tol(c)
+            obs, exact, resid, mism = L.project_case(c, raws[c.id], e, tol_c, filespecs, EV, NA)
             ctx.count(("qha", c.family, c.mode, c.eos, c.shape, c.P is None, len(c.T), c.tmax is None, c.poly_set,
                        tuple(c.T), c.tmax, str(c.P), c.eldtype, c.voldtype, tuple(sorted(c.inject.items()))))
             for k, v in resid.items():
                 if np.isfinite(v) and c.family == "main":
                     resid_max[c.mode][k] = max(resid_max[c.mode].get(k, 0.0), v)
+                if np.isfinite(v) and c.family.startswith("F9"):
+                    kk = k.replace("file:", "").replace("cpfitfile", "cpfit")
+                    f9_margin[c.mode] = max(f9_margin.get(c.mode, 0.0), v / tol_c.get(kk, 1e-9))
             obs["bmrows"] = obs.pop("bm")
             events.append(dict(inp=c.to_tla(), obs=obs, exact=bool(exact), _case=c, _mism=mism, _exp=exp[c.id],
                                _err=raws[c.id]["err"]))
@@ -655,7 +714,7 @@ def qha_part(ctx, forms, EV, NA):
                 cid = ((st.get("ev") or {}).get("inp") or {}).get("id")
                 ctx.violation("qha:" + str(r2.violated), "C20: %s violated" % r2.violated,
                               dict(invariant=r2.violated, case=case_detail(by_id[cid]) if cid in by_id else None))
-            lead = ["ImplRefuses", "ImplFailedFitReported", "ImplCompletes", "ImplFitStart", "ImplFiles"]
+            lead = ["ImplShiftInvariance", "ImplRecoverVolume", "ImplFailedFitReported", "ImplCompletes", "ImplFitStart", "ImplFiles"]
             plan = []
             for (n, fam), clauses in sorted(groups.items()):
                 first = n if n != "*" else ([c for c in lead if c in clauses] + sorted(clauses))[0]
@@ -721,7 +780,9 @@ def qha_part(ctx, forms, EV, NA):
             for k, v in d.items()} for m, d in resid_max.items()}
     worst = max([v["observed"] / v["tolerance"] for d in ctx.extra["qha_residuals_over_tolerance"].values()
                  for v in d.values()] or [0.0])
+    worst = max([worst] + list(f9_margin.values()))
     ctx.extra["qha_worst_margin"] = worst
+    ctx.extra["f9_worst_residual_over_scaled_tolerance"] = f9_margin
     if worst > 1e-2 and not ctx.violations:
         raise tlcmod.MachineryError("projection residual %.2g of the tolerance: tolerances not safe" % worst)
     ctx.sample(dict(kind="qha", **case_detail(cases[len(cases) // 2])))
